@@ -35,6 +35,7 @@ pub struct Ev {
     pub r: i64,
     pub n: i64,
     pub x: String,
+    pub b: Option<Vec<u8>>,
 }
 
 impl Ev {
@@ -70,8 +71,12 @@ impl Ev {
         self
     }
     pub fn json(&self) -> Value {
-        json!({"e": self.e, "k": self.k, "s": self.s, "id": self.id, "q": self.q, "r": self.r,
-               "n": self.n, "x": self.x})
+        let mut v = json!({"e": self.e, "k": self.k, "s": self.s, "id": self.id, "q": self.q, "r": self.r,
+               "n": self.n, "x": self.x});
+        if let Some(b) = &self.b {
+            v["b"] = json!(b);
+        }
+        v
     }
 }
 
@@ -1095,7 +1100,9 @@ impl Peer {
             return;
         }
         if self.raw {
-            ctx.emit(Ev::new("out_raw").n(b.len() as i64).x(tok::hex_encode(&b)));
+            let mut ev = Ev::new("out_raw").n(b.len() as i64);
+            ev.b = Some(b.to_vec());
+            ctx.emit(ev);
         }
         for t in self.tok_out.feed(&b) {
             match t.k {
